@@ -19,6 +19,12 @@ if "--resume" in argv:
     i = argv.index("--resume")
     resume = argv[i + 1]
     del argv[i:i + 2]
+only = None
+if "--only" in argv:
+    # re-run just these; every other change keeps the results stored in its meta.json
+    i = argv.index("--only")
+    only = set(argv[i + 1].split(","))
+    del argv[i:i + 2]
 seeds = [int(x) for x in argv] or [0]
 rows = []
 for name in sorted(os.listdir(os.path.join(VERIF, "seeded"))):
@@ -35,7 +41,7 @@ for name in sorted(os.listdir(os.path.join(VERIF, "seeded"))):
                      "needs": "NO LONGER A BREAKING CHANGE: " + meta["equivalent_since"],
                      "confirmed": confirm, "checks": {}, "equivalent": True})
         continue
-    if resume is not None and name < resume:
+    if (resume is not None and name < resume) or (only is not None and name not in only):
         results = meta.get("verif_confirmation", {}).get("quick_check", {})
         rows.append({"id": name, "property": pid, "summary": meta.get("summary", ""),
                      "needs": meta.get("needs", ""), "confirmed": confirm, "checks": results})
